@@ -672,6 +672,113 @@ def check_completion_loop(chk, F, rid="R17.12"):
     chk.floor(rid, "cases", n, 25)
 
 
+# ---- R17.13 building Assets ----------------------------------------------------------------------------------------------------------
+
+def check_into_assets(chk, F, rid="R17.13"):
+    from ..interp import Machine, Adt, PyVec, Panic, some, NONE
+    from .. import builtins as B
+    from ..builtins import deref
+    chk.rule(rid, "the conversions into Assets put every asset where the planner looks for it: a descriptor key (alone, in a "
+                  "vector, from an iterator, as the keys of a KeyMap) contributes one (master fingerprint, full path) entry "
+                  "per derivation path with the default signing capabilities; a sha256 / hash256 / ripemd160 / hash160 hash goes "
+                  "into the preimage set of its own kind only; everything else stays empty; Assets::new is empty and "
+                  "older / after set the one lock they name")
+    ASSETS = "plan::Assets"
+    imps = {}
+    for i in F.impls:
+        if (i["trait"] or "").endswith("IntoAssets"):
+            for it in i["items"]:
+                if it["name"] == "into_assets" and it["path"] in F.bodies:
+                    imps[i.get("self_ty") or i.get("self_adt")] = it["path"]
+    fi = [it["path"] for i in F.impls if (i["trait"] or "").startswith("std::iter::FromIterator") and i.get("self_adt") == ASSETS
+          for it in i["items"] if it["name"] == "from_iter"]
+    need = ["descriptor::key_map::KeyMap", "descriptor::key::DescriptorPublicKey", "std::vec::Vec<descriptor::key::DescriptorPublicKey>",
+            "bitcoin::bitcoin_hashes::sha256::Hash", "miniscript::hash256::Hash", "bitcoin::bitcoin_hashes::ripemd160::Hash",
+            "bitcoin::bitcoin_hashes::hash160::Hash", ASSETS]
+    missing = [t for t in need if t not in imps]
+    if missing or len(fi) != 1:
+        chk.fail(rid, "anchor", "IntoAssets impls not found for %r (have %r); FromIterator: %d" % (missing, sorted(imps), len(fi)), kind="unanalysable")
+        return
+    for t in imps:
+        if t not in need:
+            chk.fail(rid, "unlisted|" + t, "impl IntoAssets for %s is not in the checker's table" % t)
+    chk.saw(fi[0], *imps.values())
+    paths = {"K1": ["p1a"], "K2": ["p2a", "p2b"], "K3": []}
+    hooks = {}
+    for q in F.fns:
+        if q.endswith("DescriptorPublicKey::full_derivation_paths"):
+            hooks[q] = lambda m_, a, c: PyVec(list(paths[deref(a[0])]))
+        if q.endswith("DescriptorPublicKey::master_fingerprint"):
+            hooks[q] = lambda m_, a, c: ("fp", deref(a[0]))
+    m = Machine(F, strict=True, hooks=hooks)
+    n = 0
+    SETS = ["sha256_preimages", "hash256_preimages", "ripemd160_preimages", "hash160_preimages"]
+
+    def view(a):
+        a = deref(a)
+        out = {}
+        for f_ in ["keys"] + SETS:
+            out[f_] = sorted(repr(deref(x)) for x in B.items_of(a.fields[f_]))
+        out["abs"] = repr(a.fields["absolute_timelock"])
+        out["rel"] = repr(a.fields["relative_timelock"])
+        return out
+    try:
+        cs = m.call_path([q for q in F.fns if q.endswith("plan::CanSign as std::default::Default>::default")][0], [])
+
+        tcs = deref(cs.fields["taproot"])
+        chk.obligation(rid, cs.fields["ecdsa"] is True and tcs.fields["key_spend"] is True and tcs.fields["sighash_default"] is True
+                       and deref(tcs.fields["script_spend"]).variant == "Any", "CanSign::default",
+                       "the default signing capabilities are %r; documented: ECDSA, taproot key spend, any leaf, default sighash" % (cs,),
+                       where="src/plan.rs")
+
+        def want_keys(ks):
+            return sorted(repr(((("fp", k), p_), cs)) for k in ks for p_ in paths[k])
+        empty = {f_: [] for f_ in ["keys"] + SETS}
+        empty.update({"abs": repr(NONE), "rel": repr(NONE)})
+        cases = [("DescriptorPublicKey|1 path", imps["descriptor::key::DescriptorPublicKey"], "K1", {"keys": want_keys(["K1"])}),
+                 ("DescriptorPublicKey|2 paths", imps["descriptor::key::DescriptorPublicKey"], "K2", {"keys": want_keys(["K2"])}),
+                 ("Vec|K1,K2,K3", imps["std::vec::Vec<descriptor::key::DescriptorPublicKey>"], PyVec(["K1", "K2", "K3"]), {"keys": want_keys(["K1", "K2"])}),
+                 ("FromIterator|K2,K1", fi[0], PyVec(["K2", "K1"]), {"keys": want_keys(["K1", "K2"])}),
+                 ("KeyMap|K1,K2", imps["descriptor::key_map::KeyMap"],
+                  Adt("descriptor::key_map::KeyMap", "KeyMap", {"map": B.PyMap([("K1", "secret1"), ("K2", "secret2")])}), {"keys": want_keys(["K1", "K2"])})]
+        for ty, fld in (("bitcoin::bitcoin_hashes::sha256::Hash", "sha256_preimages"), ("miniscript::hash256::Hash", "hash256_preimages"),
+                        ("bitcoin::bitcoin_hashes::ripemd160::Hash", "ripemd160_preimages"), ("bitcoin::bitcoin_hashes::hash160::Hash", "hash160_preimages")):
+            cases.append((ty.split("::")[-2] + "|hash", imps[ty], "HASH", {fld: [repr("HASH")]}))
+        for key, fn_, arg, delta in cases:
+            r = m.call_callee({"def": fn_, "resolved": fn_, "name": "into_assets", "targs": ["I"]}, [arg])
+            n += 1
+            want = dict(empty)
+            want.update(delta)
+            got = view(r)
+            chk.obligation(rid, got == want, key, "gives %r, expected %r" % ({k: v for k, v in got.items() if v != empty[k]}, delta), where="src/plan.rs")
+        # Assets itself, new, older, after
+        new_ = [q for q in F.fns if q.endswith("plan::Assets::new")][0]
+        older = [q for q in F.fns if q.endswith("plan::Assets::older")][0]
+        after = [q for q in F.fns if q.endswith("plan::Assets::after")][0]
+        chk.saw(new_, older, after)
+        a0 = m.call_path(new_, [])
+        n += 1
+        chk.obligation(rid, view(a0) == empty, "new", "Assets::new() is %r" % (view(a0),), where="src/plan.rs")
+        same = m.call_path(imps[ASSETS], [a0])
+        chk.obligation(rid, view(same) == empty, "Assets|identity", "Assets::into_assets changes the value", where="src/plan.rs")
+        a1 = m.call_path(older, [m.call_path(new_, []), Term("REL")])
+        a2 = m.call_path(after, [m.call_path(new_, []), Term("ABS")])
+        n += 2
+        w1 = dict(empty)
+        w1["rel"] = repr(some(Term("REL")))
+        w2 = dict(empty)
+        w2["abs"] = repr(some(Term("ABS")))
+        chk.obligation(rid, view(a1) == w1, "older", "Assets::new().older(REL) is %r" % (view(a1),), where="src/plan.rs")
+        chk.obligation(rid, view(a2) == w2, "after", "Assets::new().after(ABS) is %r" % (view(a2),), where="src/plan.rs")
+    except (IndexError, KeyError) as e:
+        chk.fail(rid, "anchor|helpers", "missing %r" % (e,), kind="unanalysable")
+    except Unsupported as e:
+        chk.fail(rid, "unanalysable", "unanalysable: %s" % e, where=e.where, kind="unanalysable")
+    except Panic as e:
+        chk.fail(rid, "panic", "panic: %s" % e, where="src/plan.rs")
+    chk.floor(rid, "cases", n, 12)
+
+
 def run(chk):
     F = chk.facts()
     chk.explanation = (
@@ -709,3 +816,4 @@ def run(chk):
     chk.guard("R17.10", "assets-provider", check_assets_provider, chk, F)
     chk.guard("R17.11", "satisfier-as-provider", check_satisfier_as_provider, chk, F)
     chk.guard("R17.12", "completion-loop", check_completion_loop, chk, F)
+    chk.guard("R17.13", "into-assets", check_into_assets, chk, F)
